@@ -151,7 +151,9 @@ def userPrmStmts (p : UserPrmData) : Ast :=
       p.dataConst.map fun c => Stmt.setting
         { key := "User_Prm_Data".toList, index := none, value := .list (c.2.map decTok) }
   else
-    (constSettings p.dataConst ++ refSettings 0 p.dataRef).map Stmt.setting
+    -- "The presence of this keyword means `User_Prm_Data` and `User_Prm_Data_Len` should be ignored."
+    setNum "Max_User_Prm_Data_Len" 237 ::
+      (constSettings p.dataConst ++ refSettings 0 p.dataRef).map Stmt.setting
 
 def moduleStmt (firstId : Nat) (m : Module) : Stmt :=
   .module {
